@@ -19,7 +19,10 @@ def run(ctx):
                 "header-block kinds (three hello variants, good/bad decision, error, junk; RPC bytes) of length <= 2 (thorough: 3) in "
                 "every chunking to a real Tub as client and as server, never stopping after a rejection; non-trivial = at least two "
                 "blocks.  Plus malformed hello/decision blocks, forged reference URLs, gifts and random multi-attempt histories on "
-                "one Tub that interleave Tub peers with such raw peers")
+                "one Tub that interleave Tub peers with such raw peers.  getReference histories = requests for different Tubs / names "
+                "made before startService (queued), startService, requests after it (all queues of length <= 2, all of length 3 over "
+                "five targets, random longer ones); non-trivial = at least two queued requests naming different objects; every "
+                "result is judged by the per-reference oracle (connection key, leaf certificate, reference URL, object reached)")
     ctx.assumptions = [
         "TLS itself is replaced: startTLS is a no-op and the transport's handle is a fake OpenSSL connection object "
         "(get_peer_certificate / get_peer_cert_chain / get_verified_chain) describing what the peer presents: a leaf certificate plus "
@@ -51,7 +54,9 @@ def run(ctx):
         gifts(ctx, impl)
         hist = histories(ctx, impl)
         scripts = keeps_sending(ctx, impl)
+        grs = getref_histories(ctx, impl)
     if model_ok:
+        correspond_getrefs(ctx, grs)
         correspond_urls(ctx, urls)
         correspond_histories(ctx, hist)
         correspond_scripts(ctx, scripts)
@@ -649,3 +654,91 @@ Fixpoint trace (tid : Z -> list Z) (r : role) (tgt : list Z) (p : presented Z) (
                              replay=dict(script=t, model=got, impl=want), has_input=False)
     ctx.extra["correspondence_script_traces"] = len(rows)
     ctx.extra["correspondence_script_disagreements"] = nbad
+
+
+# ---------------------------------------------------------------------------------------------- getReference request histories
+def getref_histories(ctx, impl):
+    """client-side histories of Tub.getReference: requests for different Tubs / names made BEFORE startService (queued by the
+    Tub), startService, requests made after it; the per-reference oracle is judged on every result: the reference must sit on
+    the connection whose peer proved the tub id the FURL names, carry that FURL's identity, and a call on it must reach the
+    requested object"""
+    combos = [("B", "o1"), ("C", "o1"), ("B", "o2"), ("A", "o1"), ("Cimp", "o1"), ("C", "o2")]
+    jobs = []
+    if os.path.isdir(CORPUS):
+        for fn in sorted(os.listdir(CORPUS)):
+            if fn.endswith(".json"):
+                for g in json.load(open(os.path.join(CORPUS, fn))).get("getrefs", []):
+                    jobs.append((g[0], [tuple(o) for o in g[1]]))
+    for a_pos in ("hi", "lo"):
+        for k in (0, 1, 2):
+            for q in itertools.product(combos, repeat=k):
+                for post in ([], [("C", "o2")], [("B", "o1")]):
+                    jobs.append((a_pos, [("req",) + c for c in q] + [("start",)] + [("req",) + c for c in post]))
+    for q in itertools.product(combos[:5], repeat=3):
+        jobs.append(("hi", [("req",) + c for c in q] + [("start",)]))
+    r = ctx.rng
+    for i in range(ctx.n(120, 4000)):
+        nq, npost = r.randint(2, 5), r.randint(0, 3)
+        ops = [("req",) + r.choice(combos) for _ in range(nq)] + [("start",)] + [("req",) + r.choice(combos) for _ in range(npost)]
+        if r.random() < 0.1:
+            ops = [o for o in ops if o[0] != "start"]        # never started: nothing may be answered
+        jobs.append((r.choice(["hi", "lo"]), ops))
+    out = []
+    for (a_pos, ops) in jobs:
+        try:
+            g = impl.getref_trial(a_pos, ops)
+        except Exception as e:
+            import traceback
+            ctx.fail("oracle/getref/exception", "an exception escaped during the getReference history %r: %r" % (ops, e),
+                     replay=dict(a_pos=a_pos, ops=ops, tb=traceback.format_exc()))
+            continue
+        nq = len([1 for o in ops[:([o[0] for o in ops] + ["start"]).index("start")] if o[0] == "req"])
+        ctx.case(["getref", a_pos, [list(o) for o in ops]], nontrivial=nq >= 2 and len({(o[1], o[2]) for o in ops if o[0] == "req"}) >= 2)
+        ctx.hist("getref_queued_requests", nq)
+        ctx.hist("getref_answers", sum(1 for o in g["obs"] if o))
+        for p in g["problems"][:2]:
+            ctx.fail("oracle/getref/%s" % p[0], "%s; Tub A's history: %r (requests before 'start' are queued by the Tub)" % (p[1], g["ops"]),
+                     replay=dict(history=g))
+        out.append(g)
+    if len(out) > 30:
+        ctx.sample(dict(kind="getref-history", ops=out[30]["ops"], answers=out[30]["obs"]))
+    return out
+
+
+def correspond_getrefs(ctx, grs):
+    from harness import c05_impl as impl
+    rows = [g for g in grs if g["started"]]
+    if not rows:
+        return
+    nm = dict(o1="[1%Z]", o2="[2%Z]")
+    nbad = 0
+    for shard in range(0, len(rows), 400):
+        part = rows[shard:shard + 400]
+        terms = []
+        for g in part:
+            evs = []
+            for o in g["ops"]:
+                if o[0] == "start":
+                    evs.append("GrStart")
+                else:
+                    tid = g["ids"]["C" if o[1] == "Cimp" else o[1]]
+                    evs.append("GrRequest (Build_furl %s %s)" % (zs(tid), nm[o[2]]))
+            terms.append("map (fun x => (Z.of_nat (fst x), a_key (snd x), a_name (snd x))) (g_delivered (gr_run %s))" % coq_list(evs))
+        body = "Eval vm_compute in [" + ";\n ".join(terms) + "].\n"
+        try:
+            (vals,) = ctx.coq_eval("C05_getrefs_%d" % (shard // 400), body, requires=REQ)
+        except common.CoqEvalError as e:
+            ctx.fail("correspondence-broken", "the C05 getReference model could not be evaluated: " + str(e)[-1500:], has_input=False)
+            return
+        for g, val in zip(part, vals):
+            ctx.traces += 1
+            model = {r_: ("".join(chr(c) for c in key), {1: "o1", 2: "o2"}.get(name[0] if name else 0)) for (r_, key, name) in val}
+            bad = [(i, o, model.get(i)) for i, o in enumerate(g["obs"]) if o is not None and tuple(o) != model.get(i)]
+            if bad or len(model) != len(g["obs"]):
+                nbad += 1
+                if nbad <= 3:
+                    ctx.fail("correspondence/getref", "Tub.getReference and its model differ on history %r: (request number, answer seen, "
+                             "answer in the model) = %r" % (g["ops"], bad or "number of answered requests"),
+                             replay=dict(history=g, model=repr(model)), has_input=False)
+    ctx.extra["correspondence_getref_histories"] = len(rows)
+    ctx.extra["correspondence_getref_disagreements"] = nbad
